@@ -1,27 +1,50 @@
 (* Extract/RunsSync.v — run modes for the token / wait-group models (C13, C14).  Glue only. *)
 From FV Require Import Base.Bytes Async.Tokens Async.WaitGroup Extract.Runs.
 
-Fixpoint tok_ops (fuel : nat) (ops : list N) (s : tsys) (n : N) : args :=
+(* bookkeeping of the run mode (not part of the token model): which runner clone issued future i ([own], in creation order), which
+   live tokens sit inside Token::run on an idle connection ([srv]), which clones exist / were shut down *)
+Definition nthN_d (l : list N) (i : N) : N := nth (N.to_nat i) l 0.
+Definition memNb (x : N) (l : list N) : bool := existsb (N.eqb x) l.
+
+Fixpoint drop_all (l : list N) (s : tsys) : tsys :=
+  match l with [] => s | i :: t => drop_all t (drop_token i s) end.
+
+(* insertion keeping the list ascending: the connections of a clone end in index order *)
+Fixpoint ins (x : N) (l : list N) : list N :=
+  match l with [] => [x] | y :: t => if x <=? y then x :: l else y :: ins x t end.
+
+Fixpoint tok_ops (fuel : nat) (ops : list N) (s : tsys) (n : N) (own srv dead : list N) (nclones : N) : args :=
   match fuel with
   | O => []
   | S f =>
     match ops with
     | op :: x :: rest =>
-      let '(ready, s', n') :=
+      let '(ready, s', n', own', srv', dead', nc') :=
         match op with
-        | 1 => (2, new_fut n s, n + 1)
+        | 1 => (2, new_fut n s, n + 1, own ++ [if (x =? 0) || memNb x dead then 0 else x], srv, dead, N.max nclones (x + 1))
         | 2 => match fut_listener x (futs s) with
-               | Some _ => let '(r, s') := poll_fut x s in ((if r then 1 else 0), s', n)
-               | None => (2, s, n)
+               | Some _ => let '(r, s') := poll_fut x s in ((if r then 1 else 0), s', n, own, srv, dead, nclones)
+               | None => (2, s, n, own, srv, dead, nclones)
                end
-        | 3 => (2, drop_token x s, n)
-        | 4 => (2, drop_fut x s, n)
-        | 6 => (2, drop_token x s, n)      (* the connection task that owned token x is dropped; op 5 (token moved into Token::run) changes nothing *)
-        | _ => (2, s, n)
+        | 3 => (2, drop_token x s, n, own, filter (fun j => negb (j =? x)) srv, dead, nclones)
+        | 4 => (2, drop_fut x s, n, own, srv, dead, nclones)
+        | 5 => if memNb x (live s) && negb (memNb x srv) then
+                 (if memNb (nthN_d own x) dead then (2, drop_token x s, n, own, srv, dead, nclones)   (* its runner was shut down: the connection ends at once *)
+                  else (2, s, n, own, ins x srv, dead, nclones))                                    (* the token moves into Token::run: still in use *)
+               else (2, s, n, own, srv, dead, nclones)
+        | 6 => (2, drop_token x s, n, own, filter (fun j => negb (j =? x)) srv, dead, nclones)
+        | 7 =>
+          (* Runner::shutdown on clone x: its idle connections end (in index order), each dropping its token *)
+          if (1 <=? x) && (x <? nclones) && negb (memNb x dead)
+             && negb (existsb (fun e => nthN_d own (fst e) =? x) (futs s)) then
+            let mine := filter (fun i => nthN_d own i =? x) srv in
+            (2, drop_all mine s, n, own, filter (fun i => negb (nthN_d own i =? x)) srv, x :: dead, nclones)
+          else (2, s, n, own, srv, dead, nclones)
+        | _ => (2, s, n, own, srv, dead, nclones)
         end in
       ([len (live s'); ready] ++ map (fun i => match find (fun e => fst e =? i) (wakes s') with Some e => snd e | None => 0 end)
                                      (map N.of_nat (seq 0 (N.to_nat n'))))
-      :: tok_ops f rest s' n'
+      :: tok_ops f rest s' n' own' srv' dead' nc'
     | _ => []
     end
   end.
@@ -41,7 +64,7 @@ Definition run_tok_fill (a : args) : args :=
   let '(r, fl) := tok_fill (N.to_nat (m + 1)) 0 (init m) 0 in [[r; fl]].
 
 Definition run_tok_run (a : args) : args :=
-  tok_ops (length (arg a 1)) (arg a 1) (init (N.max 1 (argn a 0))) 0.
+  tok_ops (length (arg a 1)) (arg a 1) (init (N.max 1 (argn a 0))) 0 [] [] [] 1.
 
 Fixpoint wg_ops (fuel : nat) (ops : list N) (s : wg) (t : N) : args :=
   match fuel with
